@@ -1509,6 +1509,7 @@ class ClientRequest(ClientRequestBase):
 
         protocol = conn.protocol
         assert protocol is not None
+        transport = protocol.transport
         try:
             await self._body.write_with_length(writer, content_length)
         except OSError as underlying_exc:
@@ -1528,6 +1529,10 @@ class ClientRequest(ClientRequestBase):
         except asyncio.CancelledError:
             # Body hasn't been fully sent, so connection can't be reused
             conn.close()
+            if transport is not None:
+                # A graceful close waits for the unsent part of the body to
+                # be flushed, which never happens if the peer stopped reading.
+                transport.abort()
             raise
         except Exception as underlying_exc:
             set_exception(
